@@ -551,6 +551,11 @@ static int32 pkcs12import(psPool_t *pool, const unsigned char **buf,
         {
             return PS_PARSE_FAIL;
         }
+        if (asnint > PS_PBE_MAX_ITERATIONS)
+        {
+            psTraceIntCrypto("PKCS#12 iteration count %d too large\n", asnint);
+            return PS_LIMIT_FAIL;
+        }
         if (pkcs12pbe(pool, password, passLen, salt, 8, asnint,
                 PKCS12_KEY_ID, &decryptKey, &keyLen) < 0)
         {
@@ -1335,6 +1340,13 @@ int32 psPkcs12ParseMem(psPool_t *pool, psX509Cert_t **cert, psPubKey_t *privKey,
         }
         psAssert(p == end); /* That's all folks */
 
+        if (asnint > PS_PBE_MAX_ITERATIONS)
+        {
+            psTraceIntCrypto("PKCS#12 MAC iteration count %d too large\n",
+                asnint);
+            rc = PS_LIMIT_FAIL;
+            goto ERR_PARSE;
+        }
         if (oi == OID_SHA1_ALG)
         {
             /* When password integrity mode is used to secure a PFX PDU,
